@@ -547,7 +547,7 @@ impl Property for C08 {
 		260
 	}
 	fn cases(&self, tier: Tier) -> u64 {
-		tier.pick(80_000, 2_000_000)
+		tier.pick(600_000, 10_000_000)
 	}
 
 	fn run(&self, tape: &[u32], ctx: &mut Ctx) -> CaseResult {
